@@ -342,6 +342,11 @@ func (r *Resolver) Val(e ast.Expr) *V {
 			if !c.IsField() {
 				if fv := r.Val(x.Fun); fv.Kind == "funclit" {
 					name = "lit:" + fv.Name
+				} else if fv.Kind == "func" && fv.Name != "" {
+					// a local that holds a function or method value (check := p.validateX; check()): the call is a
+					// call of that function, with the bound receiver as first operand
+					name = fv.Name
+					args = append(args, fv.Args...)
 				}
 			} else if sel, ok := unparen(x.Fun).(*ast.SelectorExpr); ok {
 				args = append(args, r.Val(sel.X))
